@@ -12,6 +12,9 @@
 use crate::enc::NOISES;
 use crate::gad::*;
 use crate::sch::*;
+use crate::sp::sp;
+use poulpy_core::layouts::GLWEAutomorphismKeyHelper;
+use poulpy_core::{GLWENormalize, glwe_packer_tmp_bytes};
 use poulpy_core::{
     EncryptionLayout, GGLWEKeyswitch, GLWEAutomorphism, GLWEAutomorphismKeyAutomorphism, GLWEAutomorphismKeyEncryptSk, GLWEFromLWE, GLWEKeyswitch, GLWESwitchingKeyEncryptSk,
     GLWEPacker, GLWEPacking, GLWEToLWESwitchingKeyEncryptSk, GLWETrace, LWEFromGLWE, LWEKeySwitch, LWESampleExtract, LWESwitchingKeyEncrypt, LWEToGLWESwitchingKeyEncryptSk, glwe_packer_add, glwe_packer_flush,
@@ -170,7 +173,10 @@ pub fn build_swk<B: FullBackend>(
     sk_in: &GLWESecret<Vec<u8>>,
     sk_out: &GLWESecret<Vec<u8>>,
     scratch: &mut ScratchOwned<B>,
-) -> Result<(SwkP<B>, KeyMeta), String> {
+) -> Result<(SwkP<B>, KeyMeta), String>
+where
+    poulpy_hal::layouts::Scratch<B>: poulpy_hal::api::ScratchFromBytes<B>,
+{
     let n = m.n();
     let (ri, ro) = (c.rank_in as usize, c.rank_out as usize);
     let lay = GLWESwitchingKeyLayout {
@@ -187,7 +193,7 @@ pub fn build_swk<B: FullBackend>(
     let mut key = GLWESwitchingKey::alloc_from_infos(&lay);
     let mut xe = Source::new(seed32(c.seed, 0xE1));
     let mut xa = Source::new(seed32(c.seed, 0xA1));
-    m.glwe_switching_key_encrypt_sk(&mut key, sk_in, sk_out, &enc, &mut xe, &mut xa, scratch.borrow());
+    m.glwe_switching_key_encrypt_sk(&mut key, sk_in, sk_out, &enc, &mut xe, &mut xa, sp("glwe_switching_key_encrypt_sk", m.glwe_switching_key_encrypt_sk_tmp_bytes(&lay), scratch));
     let mut cells: Vec<VecZnx<Vec<u8>>> = vec![];
     for row in 0..c.dnum as usize {
         for col in 0..ri {
@@ -196,11 +202,14 @@ pub fn build_swk<B: FullBackend>(
     }
     let meta = key_meta(&cells, c.kb as usize, c.dnum as usize, c.dsize as usize, ri, ro, &glwe_secret_coeffs(sk_out), &glwe_secret_coeffs(sk_in), &ni)?;
     let mut prep = m.glwe_switching_key_prepared_alloc_from_infos(&key);
-    m.glwe_switching_key_prepare(&mut prep, &key, scratch.borrow());
+    m.glwe_switching_key_prepare(&mut prep, &key, sp("glwe_switching_key_prepare", m.glwe_switching_key_prepare_tmp_bytes(&key), scratch));
     Ok((prep, meta))
 }
 
-pub fn build_atk<B: FullBackend>(m: &Module<B>, c: &Case, p: i64, sk: &GLWESecret<Vec<u8>>, salt: u64, scratch: &mut ScratchOwned<B>) -> Result<(AtkP<B>, KeyMeta, GLWEAutomorphismKey<Vec<u8>>), String> {
+pub fn build_atk<B: FullBackend>(m: &Module<B>, c: &Case, p: i64, sk: &GLWESecret<Vec<u8>>, salt: u64, scratch: &mut ScratchOwned<B>) -> Result<(AtkP<B>, KeyMeta, GLWEAutomorphismKey<Vec<u8>>), String>
+where
+    poulpy_hal::layouts::Scratch<B>: poulpy_hal::api::ScratchFromBytes<B>,
+{
     let n = m.n();
     let r = c.rank_out as usize;
     let lay = GLWEAutomorphismKeyLayout {
@@ -230,7 +239,7 @@ pub fn build_atk<B: FullBackend>(m: &Module<B>, c: &Case, p: i64, sk: &GLWESecre
     let s_enc: Vec<Vec<i64>> = s.iter().map(|si| automorphism_i64(si, pinv)).collect();
     let meta = key_meta(&cells, c.kb as usize, c.dnum as usize, c.dsize as usize, r, r, &s_enc, &s, &ni).map_err(|e| format!("automorphism key p={p}: {e}"))?;
     let mut prep = m.glwe_automorphism_key_prepared_alloc_from_infos(&key);
-    m.glwe_automorphism_key_prepare(&mut prep, &key, scratch.borrow());
+    m.glwe_automorphism_key_prepare(&mut prep, &key, sp("glwe_automorphism_key_prepare", m.glwe_automorphism_key_prepare_tmp_bytes(&key), scratch));
     Ok((prep, meta, key))
 }
 
@@ -282,7 +291,10 @@ fn classes(c: &Case, bound: f64, steps: usize, e: f64) -> (bool, Vec<&'static st
 // ------------------------------------------------------------------------------------------
 // 1. glwe_keyswitch / glwe_keyswitch_assign
 
-fn run_ks<B: FullBackend>(m: &Module<B>, c: &Case) -> Verdict {
+fn run_ks<B: FullBackend>(m: &Module<B>, c: &Case) -> Verdict
+where
+    poulpy_hal::layouts::Scratch<B>: poulpy_hal::api::ScratchFromBytes<B>,
+{
     let n = m.n();
     let mut scratch = pzv_be::dirty_scratch::<B>(SCRATCH);
     let assign = c.op % 2 == 1;
@@ -338,7 +350,10 @@ pub const AUT_OPS: [&str; 8] = [
     "glwe_automorphism_sub_negate_assign",
 ];
 
-fn run_aut<B: FullBackend>(m: &Module<B>, c: &Case) -> Verdict {
+fn run_aut<B: FullBackend>(m: &Module<B>, c: &Case) -> Verdict
+where
+    poulpy_hal::layouts::Scratch<B>: poulpy_hal::api::ScratchFromBytes<B>,
+{
     let n = m.n();
     let mut scratch = pzv_be::dirty_scratch::<B>(SCRATCH);
     let op = (c.op % 8) as usize;
@@ -413,7 +428,10 @@ fn run_aut<B: FullBackend>(m: &Module<B>, c: &Case) -> Verdict {
 // ------------------------------------------------------------------------------------------
 // 3. glwe_trace / glwe_trace_assign
 
-fn run_trace<B: FullBackend>(m: &Module<B>, c: &Case) -> Verdict {
+fn run_trace<B: FullBackend>(m: &Module<B>, c: &Case) -> Verdict
+where
+    poulpy_hal::layouts::Scratch<B>: poulpy_hal::api::ScratchFromBytes<B>,
+{
     let n = m.n();
     let log_n = c.log_n as usize;
     let mut scratch = pzv_be::dirty_scratch::<B>(SCRATCH);
@@ -530,7 +548,10 @@ fn lwe_phase(ct: &LWE<Vec<u8>>, s: &[i64], b: usize) -> Dyadic {
 
 pub const LWE_OPS: [&str; 4] = ["lwe_keyswitch", "glwe_from_lwe", "lwe_from_glwe", "lwe_sample_extract"];
 
-fn run_lwe<B: FullBackend>(m: &Module<B>, c: &Case) -> Verdict {
+fn run_lwe<B: FullBackend>(m: &Module<B>, c: &Case) -> Verdict
+where
+    poulpy_hal::layouts::Scratch<B>: poulpy_hal::api::ScratchFromBytes<B>,
+{
     let n = m.n();
     let mut scratch = pzv_be::dirty_scratch::<B>(SCRATCH);
     let op = (c.op % 4) as usize;
@@ -558,7 +579,7 @@ fn run_lwe<B: FullBackend>(m: &Module<B>, c: &Case) -> Verdict {
                 Err(e) => return fail(c, "lwe_switching_key_encrypt_sk", "key-cell-wrong", e),
             };
             let mut prep = m.lwe_switching_key_prepared_alloc_from_infos(&key);
-            m.lwe_switching_key_prepare(&mut prep, &key, scratch.borrow());
+            m.lwe_switching_key_prepare(&mut prep, &key, sp("lwe_switching_key_prepare", m.lwe_switching_key_prepare_tmp_bytes(&key), &mut scratch));
             let a = arbitrary_lwe(n1, al, c.cls, c.seed ^ 0xA);
             let mut res = arbitrary_lwe(n2, rl, VClass::Uniform, c.seed ^ 0xB);
             m.lwe_keyswitch(&mut res, &a, &prep, scratch.borrow());
@@ -585,7 +606,7 @@ fn run_lwe<B: FullBackend>(m: &Module<B>, c: &Case) -> Verdict {
                 Err(e) => return fail(c, "lwe_to_glwe_key_encrypt_sk", "key-cell-wrong", e),
             };
             let mut prep = m.lwe_to_glwe_key_prepared_alloc_from_infos(&key);
-            m.lwe_to_glwe_key_prepare(&mut prep, &key, scratch.borrow());
+            m.lwe_to_glwe_key_prepare(&mut prep, &key, sp("lwe_to_glwe_key_prepare", m.lwe_to_glwe_key_prepare_tmp_bytes(&key), &mut scratch));
             let a = arbitrary_lwe(n1, al, c.cls, c.seed ^ 0xA);
             let mut res = glwe(n, rl, ro);
             arbitrary_glwe(&mut res, VClass::Uniform, c.seed ^ 0xB);
@@ -611,7 +632,7 @@ fn run_lwe<B: FullBackend>(m: &Module<B>, c: &Case) -> Verdict {
                 Err(e) => return fail(c, "glwe_to_lwe_key_encrypt_sk", "key-cell-wrong", e),
             };
             let mut prep = m.glwe_to_lwe_key_prepared_alloc_from_infos(&key);
-            m.glwe_to_lwe_key_prepare(&mut prep, &key, scratch.borrow());
+            m.glwe_to_lwe_key_prepare(&mut prep, &key, sp("glwe_to_lwe_key_prepare", m.glwe_to_lwe_key_prepare_tmp_bytes(&key), &mut scratch));
             let mut a = glwe(n, al, ri);
             arbitrary_glwe(&mut a, c.cls, c.seed ^ 0xA);
             let idx = c.idx as usize % n;
@@ -663,7 +684,10 @@ fn run_lwe<B: FullBackend>(m: &Module<B>, c: &Case) -> Verdict {
 
 pub const KK_OPS: [&str; 4] = ["gglwe_keyswitch", "gglwe_keyswitch_assign", "glwe_automorphism_key_automorphism", "glwe_automorphism_key_automorphism_assign"];
 
-fn run_kk<B: FullBackend>(m: &Module<B>, c: &Case) -> Verdict {
+fn run_kk<B: FullBackend>(m: &Module<B>, c: &Case) -> Verdict
+where
+    poulpy_hal::layouts::Scratch<B>: poulpy_hal::api::ScratchFromBytes<B>,
+{
     let n = m.n();
     let mut scratch = pzv_be::dirty_scratch::<B>(SCRATCH);
     let op = (c.op % 4) as usize;
@@ -703,11 +727,13 @@ fn run_kk<B: FullBackend>(m: &Module<B>, c: &Case) -> Verdict {
         }
         let want: Vec<Vec<Dyadic>> = (0..r_dnum * outer).map(|i| phase_vals(a.at(i / outer, i % outer).data(), &s_in, al.b)).collect();
         let got: Vec<Vec<Dyadic>> = if assign {
-            m.gglwe_keyswitch_assign(&mut a, &key, scratch.borrow());
+            let q = m.gglwe_keyswitch_tmp_bytes(&a, &a, &key);
+            m.gglwe_keyswitch_assign(&mut a, &key, sp("gglwe_keyswitch_assign", q, &mut scratch));
             (0..r_dnum * outer).map(|i| phase_vals(a.at(i / outer, i % outer).data(), &s_out, al.b)).collect()
         } else {
             let mut res = mk(rl, ro, r_dnum);
-            m.gglwe_keyswitch(&mut res, &a, &key, scratch.borrow());
+            let q = m.gglwe_keyswitch_tmp_bytes(&res, &a, &key);
+            m.gglwe_keyswitch(&mut res, &a, &key, sp("gglwe_keyswitch", q, &mut scratch));
             (0..r_dnum * outer).map(|i| phase_vals(res.at(i / outer, i % outer).data(), &s_out, rl.b)).collect()
         };
         let bound = ks_bound(&meta, al, rl, n, &l1s(&s_in), l1_sum(&s_out));
@@ -760,7 +786,8 @@ fn run_kk<B: FullBackend>(m: &Module<B>, c: &Case) -> Verdict {
     let s_pq: Vec<Vec<i64>> = s.iter().map(|si| automorphism_i64(si, inv(pq))).collect();
     let want: Vec<Vec<Dyadic>> = (0..a_dnum * r).map(|i| phase_vals(a.at(i / r, i % r).data(), &s_p, al.b)).collect();
     let (rl, r_dnum, got, p_res) = if assign {
-        m.glwe_automorphism_key_automorphism_assign(&mut a, &keyq, scratch.borrow());
+        let q_ = m.glwe_automorphism_key_automorphism_tmp_bytes(&a, &a, &keyq);
+        m.glwe_automorphism_key_automorphism_assign(&mut a, &keyq, sp("glwe_automorphism_key_automorphism_assign", q_, &mut scratch));
         let got: Vec<Vec<Dyadic>> = (0..a_dnum * r).map(|i| phase_vals(a.at(i / r, i % r).data(), &s_pq, al.b)).collect();
         (al, a_dnum, got, a.p())
     } else {
@@ -769,7 +796,8 @@ fn run_kk<B: FullBackend>(m: &Module<B>, c: &Case) -> Verdict {
         let rl = Lay { b: al.b, size: rsz };
         let lay_r = GLWEAutomorphismKeyLayout { n: Degree(n as u32), base2k: Base2K(al.b as u32), k: TorusPrecision((rsz * al.b) as u32), rank: Rank(r as u32), dnum: Dnum(r_dnum as u32), dsize: Dsize(a_dsize as u32) };
         let mut res = GLWEAutomorphismKey::alloc_from_infos(&lay_r);
-        m.glwe_automorphism_key_automorphism(&mut res, &a, &keyq, scratch.borrow());
+        let q_ = m.glwe_automorphism_key_automorphism_tmp_bytes(&res, &a, &keyq);
+        m.glwe_automorphism_key_automorphism(&mut res, &a, &keyq, sp("glwe_automorphism_key_automorphism", q_, &mut scratch));
         let got: Vec<Vec<Dyadic>> = (0..r_dnum * r).map(|i| phase_vals(res.at(i / r, i % r).data(), &s_pq, al.b)).collect();
         (rl, r_dnum, got, res.p())
     };
@@ -813,7 +841,10 @@ fn bitrev(x: usize, bits: usize) -> usize {
     if bits == 0 { 0 } else { x.reverse_bits() >> (usize::BITS as usize - bits) }
 }
 
-fn run_pack<B: FullBackend>(m: &Module<B>, c: &Case) -> Verdict {
+fn run_pack<B: FullBackend>(m: &Module<B>, c: &Case) -> Verdict
+where
+    poulpy_hal::layouts::Scratch<B>: poulpy_hal::api::ScratchFromBytes<B>,
+{
     let n = m.n();
     let log_n = c.log_n as usize;
     let mut scratch = pzv_be::dirty_scratch::<B>(SCRATCH);
@@ -864,7 +895,8 @@ fn run_pack<B: FullBackend>(m: &Module<B>, c: &Case) -> Verdict {
         }
         let mut res = glwe(n, rl, r);
         arbitrary_glwe(&mut res, VClass::Uniform, c.seed ^ 0xB);
-        m.glwe_pack(&mut res, map, gap, &keys, scratch.borrow());
+        let q_ = m.glwe_pack_tmp_bytes(&res, &keys.automorphism_key_infos());
+        m.glwe_pack(&mut res, map, gap, &keys, sp("glwe_pack", q_, &mut scratch));
         let mut bound = 0f64;
         for i in 0..(log_n - gap) {
             bound += 2.0 * al.unit() * so + ks_bound(&metas[&gals[i]], al, al, n, &l1s(&s), l1_sum(&s));
@@ -891,15 +923,15 @@ fn run_pack<B: FullBackend>(m: &Module<B>, c: &Case) -> Verdict {
                 for mm in 0..(1usize << lb) {
                     want[(mm << levels) + bitrev(i, levels)] = ph[mm << levels].clone();
                 }
-                glwe_packer_add(m, &mut packer, Some(&ct), &keys, scratch.borrow());
+                glwe_packer_add(m, &mut packer, Some(&ct), &keys, sp("glwe_packer_add", glwe_packer_tmp_bytes(m, &acc_infos, &keys.automorphism_key_infos()), &mut scratch));
             } else {
-                glwe_packer_add(m, &mut packer, None::<&GLWE<Vec<u8>>>, &keys, scratch.borrow());
+                glwe_packer_add(m, &mut packer, None::<&GLWE<Vec<u8>>>, &keys, sp("glwe_packer_add", glwe_packer_tmp_bytes(m, &acc_infos, &keys.automorphism_key_infos()), &mut scratch));
             }
         }
         let ol = Lay { b: if c.radix_mode & 4 != 0 { al.b } else { rl.b }, size: al.size.min(12) };
         let mut res = glwe(n, ol, r);
         arbitrary_glwe(&mut res, VClass::Uniform, c.seed ^ 0xB);
-        glwe_packer_flush(m, &mut packer, &mut res, scratch.borrow());
+        glwe_packer_flush(m, &mut packer, &mut res, sp("glwe_packer_flush", m.glwe_normalize_tmp_bytes(), &mut scratch));
         let mut bound = (rl.unit() + ol.unit()) * so * 2.0;
         for i in lb..log_n {
             bound += 2.0 * rl.unit() * so + ks_bound(&metas[&gals[i]], rl, rl, n, &l1s(&s), l1_sum(&s));
